@@ -532,9 +532,16 @@ class Runner:
             self.res['tie_failures'].append('files at rest do not load: %s' % pre)
             return False
         pre = copy.deepcopy(pre)
-        cands = [(frozenset(), pre)]
+        # the saves of the batch write the driver's in-memory store, which may already differ from the files by collections
+        # that exist but are empty (replace/update/remove of a missing record create the collection in memory and return
+        # without saving): candidates are simulated from memory, and an empty collection is no difference
+        mem0 = copy.deepcopy(driver._data)
+        if norm(mem0) != norm(pre):
+            self.res['tie_failures'].append({'note': 'in-memory store differs from the files at rest by more than empty collections',
+                                             'origin': origin})
+        cands = [(frozenset(), norm(pre))]
         for order in ([0], [1], [0, 1], [1, 0]):
-            cands.append((frozenset(order), self.simulate(pre, [ops[j] for j in order], h)))
+            cands.append((frozenset(order), norm(self.simulate(mem0, [ops[j] for j in order], h))))
 
         async def one(j):
             r = await self.op_coro(driver, ops[j])
@@ -559,7 +566,7 @@ class Runner:
         fs1 = read_dir(live)
         post_mem = copy.deepcopy(driver._data)
         st, post = self.fresh(path, h)
-        if errors or st != 'ok' or post != post_mem:
+        if errors or st != 'ok' or norm(post) != norm(post_mem):
             self.add_violation(
                 ('overlapping operations: completed batch not readable', 'failure' if (st != 'ok' or errors) else 'other',
                  h['use_backup']),
@@ -582,10 +589,11 @@ class Runner:
                 self.stats['recoveries'] += 1
             st, got = seen[key]
             acked = set(point['acked'])
-            ok = st == 'ok' and any(done >= acked and got == store for done, store in cands)
+            gotn = norm(got) if st == 'ok' else None
+            ok = st == 'ok' and any(done >= acked and gotn == store for done, store in cands)
             self.bump('batch:' + ('ok' if ok else 'bad'))
             if not ok:
-                lost = st == 'ok' and any(got == store for done, store in cands)
+                lost = st == 'ok' and any(gotn == store for done, store in cands)
                 self.add_violation(
                     ('overlapping operations: ' + ('acknowledged operation lost' if lost else 'store is no combination of the operations'),
                      'failure' if st != 'ok' else 'other', h['use_backup']),
@@ -881,7 +889,7 @@ class Runner:
                 rows, coq.lst(pl, lambda b: coq.zlist(list(b)))))
             metas.append((self.case_meta[i:i + 500], pl))
         outs = coq.eval_shards(ctx.workdir, 'c08cases', HEADER, shards,
-                               ['bad_trace cases', 'bad_states cases', 'bad_load cases', 'bad_spec cases', 'bad_frame payloads'])
+                               ['bad_trace cases', 'bad_states cases', 'bad_load cases', 'bad_spec cases', 'bad_frame payloads'], jobs=2)
         n_spec = 0
         for (rc, lists, err), (meta, pl) in zip(outs, metas):
             if rc != 0 or len(lists) != 5:
@@ -895,9 +903,10 @@ class Runner:
             for j in lists[4]:
                 res['tie_failures'].append('payload is not closed exactly at its end (framing premise): %r' % pl[j][:80])
         res['extra']['coq_spec_oracle_flagged_saves'] = n_spec
-        if bool(n_spec) != bool(self.viol_count) and not any(k[0] == 'completed-save-not-readable' for k in self.viol_count):
+        single = [k for k in self.viol_count if not k[0].startswith('overlapping operations')]   # batches have no Coq case
+        if bool(n_spec) != bool(single) and not any(k[0] == 'completed-save-not-readable' for k in single):
             res['tie_failures'].append('python and Coq spec oracles disagree (%d saves flagged by Coq, %d violation classes)' % (
-                n_spec, len(self.viol_count)))
+                n_spec, len(single)))
 
     def finish(self):
         res = self.res
@@ -914,6 +923,11 @@ class Runner:
 
 
 HEADER = 'From QT Require Import C08.Run.\nOpen Scope Z_scope.\n'
+
+
+def norm(store):
+    """a store without its empty collections (an empty collection cannot be told from a missing one through the driver)"""
+    return {c: recs for c, recs in store.items() if recs}
 
 
 def summarize(store):
